@@ -16,24 +16,55 @@ fn f_durations() -> Vec<[f64; 10]> {
     ]
 }
 
-struct Ffi;
+struct Ffi {
+    cals: Vec<&'static str>,
+    dates: Vec<(i32, u8, u8)>,
+    times: Vec<(u8, u8, u8, u16, u16, u16)>,
+}
+
+/// ICU4X's astronomical calendars panic on far years (known finding of C03): not a subject of the pairing.
+fn far_for(cal: &str, y: i32) -> bool {
+    matches!(cal, "chinese" | "dangi" | "islamic" | "islamic-umalqura") && y.abs() > 10_000
+}
+
+impl Ffi {
+    /// quick: the hand-picked alphabets above; thorough: all 18 calendars x 31 dates (month ends, leap days, era
+    /// changes of the japanese calendar, the Gregorian reform, years 0 / -1 / -100, both ends of the range, leap
+    /// months of three calendars) x 6 times.
+    fn new(tier: Tier) -> Self {
+        let mut cals = F_CALS.to_vec();
+        let mut dates = F_DATES.to_vec();
+        let mut times = F_TIMES.to_vec();
+        if tier == Tier::Thorough {
+            for c in ["buddhist", "coptic", "dangi", "ethioaa", "indian", "islamic", "islamic-civil", "islamic-tbla", "islamic-umalqura", "japanext", "persian", "roc"] {
+                cals.push(c);
+            }
+            dates.extend([
+                (2019, 4, 30), (2019, 5, 1), (1989, 1, 7), (1989, 1, 8), (1926, 12, 25), (1912, 7, 30), (1868, 10, 23), (1868, 1, 1),
+                (1582, 10, 15), (1582, 10, 4), (1, 1, 1), (0, 12, 31), (0, 1, 1), (-1, 12, 31), (-100, 2, 28), (-271_821, 4, 20),
+                (275_760, 1, 1), (2000, 2, 29), (1900, 2, 28), (2100, 3, 1), (2023, 3, 22), (2025, 7, 25), (1911, 12, 31), (1912, 1, 1),
+            ]);
+            times.extend([(12, 0, 0, 0, 0, 0), (0, 0, 0, 0, 0, 0), (11, 59, 59, 500, 0, 0)]);
+        }
+        Ffi { cals, dates, times }
+    }
+}
 
 impl Space for Ffi {
     fn name(&self) -> String {
         "c19.ffi_functions".into()
     }
     fn len(&self) -> u64 {
-        (F_CALS.len() * F_DATES.len() * F_TIMES.len()) as u64
+        (self.cals.len() * self.dates.len() * self.times.len()) as u64
     }
     fn block(&self) -> u64 {
         1
     }
     fn eval(&self, i: u64, out: &mut Out) {
-        let ix = unrank(i, &[F_CALS.len() as u64, F_DATES.len() as u64, F_TIMES.len() as u64]);
-        let (cal_id, (y, m, dd), t) = (F_CALS[ix[0]], F_DATES[ix[1]], F_TIMES[ix[2]]);
+        let ix = unrank(i, &[self.cals.len() as u64, self.dates.len() as u64, self.times.len() as u64]);
+        let (cal_id, (y, m, dd), t) = (self.cals[ix[0]], self.dates[ix[1]], self.times[ix[2]]);
         let attrs = || vec![("calendar", cal_id.to_string()), ("date", format!("{y}-{m}-{dd}")), ("time", format!("{t:?}"))];
-        if cal_id == "chinese" && y.abs() > 10_000 {
-            // ICU4X's astronomical calendars panic on far years (known finding of C03): not a subject of the pairing
+        if far_for(cal_id, y) {
             out.unjudged += 1;
             return;
         }
@@ -216,7 +247,7 @@ impl Space for Ffi {
                     pairs!(out, n, "Calendar::year_month_from_partial", attrs, snap_ym_ffi, snap_ym_core, fc.year_month_from_partial(f_partial_date(p, fc), f_ov(ov)), c_partial_date(p, &ccal).and_then(|pp| ccal.year_month_from_partial(&pp, ov)));
                 }
             }
-            for oc in F_CALS.iter().copied().filter(|c| !(*c == "chinese" && y.abs() > 10_000)) {
+            for oc in self.cals.iter().copied().filter(|c| !far_for(c, y)) {
                 let (fo, co) = (fr(fcal::Calendar::from_utf8(oc.as_bytes())).expect("cal"), Calendar::from_str(oc).expect("cal"));
                 pairs!(out, n, "PlainDate::with_calendar", attrs, snap_date_ffi, snap_date_core, fdt0.with_calendar(&fo), cdt0.with_calendar(co.clone()));
             }
@@ -277,7 +308,7 @@ impl Space for Ffi {
                 }
             }
             pairs!(out, n, "PlainDateTime::with_time", attrs, snap_dt_ffi, snap_dt_core, f0.with_time(&ft2), c0.with_time(ct2));
-            for ocal in F_CALS.iter().copied().filter(|c| !(*c == "chinese" && y.abs() > 10_000)) {
+            for ocal in self.cals.iter().copied().filter(|c| !far_for(c, y)) {
                 let (fo, co) = (fr(fcal::Calendar::from_utf8(ocal.as_bytes())).expect("cal"), Calendar::from_str(ocal).expect("cal"));
                 pairs!(out, n, "PlainDateTime::with_calendar", attrs, snap_dt_ffi, snap_dt_core, f0.with_calendar(&fo), c0.with_calendar(co.clone()));
             }
@@ -433,7 +464,7 @@ impl Space for Ffi {
         }
     }
     fn describe(&self) -> serde_json::Value {
-        json!({"calendars": F_CALS, "dates": F_DATES.len(), "times": F_TIMES.len(), "durations": 6, "difference_settings": SETTINGS.len()})
+        json!({"calendars": self.cals, "dates": self.dates.len(), "times": self.times.len(), "durations": 6, "difference_settings": SETTINGS.len()})
     }
 }
 
@@ -515,6 +546,6 @@ impl Space for Enums {
     }
 }
 
-pub fn spaces() -> Vec<Box<dyn Space>> {
-    vec![Box::new(Ffi), Box::new(Enums)]
+pub fn spaces(tier: Tier) -> Vec<Box<dyn Space>> {
+    vec![Box::new(Ffi::new(tier)), Box::new(Enums)]
 }
